@@ -5,6 +5,7 @@ mod gstd;
 mod pool;
 mod props;
 mod proto;
+mod reval;
 mod rtype;
 mod runner;
 mod tape;
